@@ -574,6 +574,14 @@ def run_and_check(ctx, E, binary, job, drv_jobs):
         ctx.violation("photon:run-hangs", "the run did not finish within %d s (%s); %d iterations started; last log line: %s"
                       % (job["timeout"], what, len(its), res["log"].strip().split("\n")[-1][-160:]), dict(rep, trace_tail=res["trace"][-60:]))
         st["oracle_failures"] += 1
+        # what the trace shows up to the point where the run got stuck
+        for it in its:
+            bad = [(k, tx) for (k, tx) in trace_oracles(E, it) if k not in ("photon:iteration-not-finished", "photon:task-not-executed")]
+            for (key, text) in bad[:3]:
+                ctx.violation(key, "%s (%s, run later hangs)" % (text, what), dict(rep, trace=[" ".join([k] + [str(x) for x in v]) for (k, v) in it["events"] if k != "PG"][:3000]))
+            if trace and not bad:
+                ops, exp = iteration_ops(E, it)
+                drv_jobs.append((ops, exp, rep, what, it["PI"][0], False))
         return
     if res["rc"] != 0:
         ctx.violation("photon:run-failed", "the run exited with status %d (%s): %s" % (res["rc"], what, res["log"].strip()[-300:]),
@@ -675,6 +683,16 @@ def fixed_jobs():
     return jobs
 
 
+def calm(c):
+    """keep a run under scheduling jitter short: few packets, no near-endless re-emission / periodic laps"""
+    c["N"] = min(c["N"], 600)
+    if c.get("reprob") == "0.95":
+        c["reprob"] = "0.7"
+    if c.get("density") == "0.005":
+        c["density"] = "0.02"
+    return c
+
+
 def make_jobs(ctx):
     jobs = corpus_jobs() + fixed_jobs()
     for _ in range(ctx.budget(26, 330)):
@@ -691,13 +709,13 @@ def make_jobs(ctx):
     for k in range(ctx.budget(10, 80)):
         c = dict(one, N=ctx.rng.choice([200, 200, 400, 600, 201]), iters=3) if k % 2 == 0 else random_config(ctx.rng)
         if k % 2 == 1:
-            c["N"] = min(c["N"], 600)
+            calm(c)
         jobs.append(dict(cfg=c, threads=ctx.rng.choice([2, 4, 4, 8]), jitter="%d:%s" % (ctx.rng.randrange(1, 10 ** 6), ctx.rng.choice(JITTERS_TRACE))))
     # ... and untraced (the trace mutex is not taken: the interleavings of the unhooked code)
     for k in range(ctx.budget(12, 100)):
         c = dict(one, N=ctx.rng.choice([200, 200, 400, 800]), iters=3) if k % 3 != 2 else random_config(ctx.rng)
         if k % 3 == 2:
-            c["N"] = min(c["N"], 600)
+            calm(c)
             c["continuous"] = True
             c["mode"] = "both" if c["sources"] else "continuous"
         jobs.append(dict(cfg=c, threads=ctx.rng.choice([2, 4, 4, 8]), jitter="%d:%s" % (ctx.rng.randrange(1, 10 ** 6), ctx.rng.choice(JITTERS_PLAIN)), trace=False))
